@@ -18,14 +18,14 @@ def register(PROPS):
                  'also two tasks per checkpoint), parsed again and compared: attributes, remaining occurrences (<= 200, up to year 2099) '
                  'and durations; the same through echsq\'s own add_fd()/massage() and through the echse binaries; and one event is '
                  'written with every padding length 0..4300 so that every write call site meets the end of the 4 KiB writer buffer at '
-                 'every offset.  Exhaustive within that bound; anything else is reported.  A many-UIDs driver parses up to 1000 (thorough 5000) events with distinct UIDs of five patterns in one process and requires every task to read, print and re-read under the UID it was submitted with (the UID intern table has several levels).  Further drivers: c05_fdstate (every sequence of up to 4 (6) documents over {regular file, /dev/full, a 5 KiB task to a regular file} on one descriptor number and on two alternating ones: echs_icalify_fini reports loss exactly for the /dev/full documents, successful documents read back); c05_attendees (1-3 (4) ATTENDEE lines with EVERY tuple of address lengths 1..36, with and without mailto:, read, written and read again; plain and under ASan); c05_longlines (SUMMARY, LOCATION, X-ECHS-OFILE, DESCRIPTION lines of every unfolded length 960..1030 (700..1100) in four spellings - LF, CRLF, folded at 75 with LF, with CRLF - must read alike, completely up to 1023 octets, and alike again when pushed in two pieces cut within 2 octets of the line breaks and folds); c05_zones (every sequence of 2-4 events out of six kinds - Europe/Berlin, America/New_York, Asia/Tokyo local times, recurring or one-off, with and without DTEND - in one calendar, each run in a freshly forked image: every task reads, and writes and reads again, to the occurrences and durations it has when it is alone in a fresh image).',
+                 'every offset.  Exhaustive within that bound; anything else is reported.  A many-UIDs driver parses up to 1000 (thorough 5000) events with distinct UIDs of five patterns in one process and requires every task to read, print and re-read under the UID it was submitted with (the UID intern table has several levels).  Further drivers: c05_fdstate (every sequence of up to 4 (6) documents over {regular file, /dev/full, a 5 KiB task to a regular file} on one descriptor number and on two alternating ones: echs_icalify_fini reports loss exactly for the /dev/full documents, successful documents read back); c05_attendees (1-3 (4) ATTENDEE lines with EVERY tuple of address lengths 1..36, with and without mailto:, read, written and read again; plain and under ASan); c05_longlines (SUMMARY, LOCATION, X-ECHS-OFILE, DESCRIPTION lines of every unfolded length 960..1030 (700..1100) in four spellings - LF, CRLF, folded at 75 with LF, with CRLF - must read alike, completely up to 1023 octets, and alike again when pushed in two pieces cut within 2 octets of the line breaks and folds); c05_zones (every sequence of 2-4 events out of six kinds - Europe/Berlin, America/New_York, Asia/Tokyo local times, recurring or one-off, with and without DTEND - in one calendar, each run in a freshly forked image: every task reads, and writes and reads again, to the occurrences and durations it has when it is alone in a fresh image); c05_tzchain (zoned DAILY and WEEKLY streams at every wall-clock half hour 00:00..04:00 in Europe/Berlin, America/New_York, Australia/Sydney, Europe/London, defined in January and in July, WALKED in one process over 300 (1200) positions and written at every one - read back at once, read back after the walk, and as a chain in which the text written at position k is what the walk continues from, both written forms: the text of position k reads to the next 5 occurrences and durations of the live stream, so whatever earlier positions left in process-wide zone state is in effect); c05_mailflags (every subset of X-ECHS-MAIL-OUT/-ERR/-RUN x every order of the lines present x every assignment of the values 0, 1, 2, true x four surroundings: each flag is what its own line says whatever the order and the other two, as read and after both written forms).',
         'note': 'Both streams of a round trip come from the code under test: whether the expansion itself is right is C01\'s claim. '
                 'Sub-daily frequencies are taken with single BY parts only (sparse combinations are C09\'s work-bound subject). '
                 'Properties outside the README table (DESCRIPTION, X-GA-*) are carried along; DESCRIPTION is compared in the '
                 'geometry sweep only, where it serves as padding.',
         'rule': 'map: a case is (field subset, calendar defaults); inside it 2 value variants x 2 orders are evaluated; non-trivial = subsets '
                 'with >= 2 properties.  position / cli: a case is one schedule (table entry, or grammar rule x anchor with its terminations); '
-                'evaluations count (schedule, k) round trips; non-trivial = k >= 1 pops and >= 2 occurrences left.  geometry: a case is one '
+                'evaluations count (schedule, k) round trips; non-trivial = k >= 1 pops and >= 2 occurrences left.  tz-chain: a case is one (zone, start, wall-clock time, FREQ, mode, written form), evaluations count positions written; every case is non-trivial (the walk crosses at least one offset change).  mail-flags: a case is one (lines present, order, values, surroundings); non-trivial = >= 2 mail lines.  geometry: a case is one '
                 'padding length; non-trivial = the written text exceeds the writer buffer (some line straddles its end).  echsq: non-trivial '
                 '= stream with >= 2 occurrences resp. >= 1 property.  Cases are distinct by construction.',
         'bound': {
@@ -50,6 +50,10 @@ def register(PROPS):
             D('c05_longlines', ['lo=960', 'hi=1030'], ['lo=700', 'hi=1100'], label='long-lines', shards=8),
             D('c05_longlines', ['lo=1000', 'hi=1030'], ['lo=960', 'hi=1030'], label='long-lines-asan', shards=8, variant='asan'),
             D('c05_zones', ['maxn=4'], label='zones', shards=8),
+            D('c05_tzchain', ['n=300'], ['n=1200'], label='tz-chain', shards=16),
+            D('c05_tzchain', ['n=300'], label='tz-chain-asan', shards=16, variant='asan'),
+            D('c05_mailflags', [], label='mail-flags', shards=8),
+            D('c05_mailflags', [], label='mail-flags-asan', shards=8, variant='asan'),
             D('c05_zones', ['maxn=3'], ['maxn=4'], label='zones-asan', shards=8, variant='asan'),
             D('c05_attendees', ['maxn=3', 'maxlen=36'], ['maxn=4', 'maxlen=36'], label='attendees', shards=8),
             D('c05_attendees', ['maxn=3', 'maxlen=24'], ['maxn=3', 'maxlen=36'], label='attendees-asan', shards=8, variant='asan'),
@@ -89,6 +93,8 @@ def register(PROPS):
             'occurrences are compared up to 2099-12-31 and up to 200 per stream; beyond 2100 the weekday arithmetic of the expansion is off '
             '(C01/C16 by-catch, see triage/C05.md) and the difference depends on refill positions',
             'echsq\'s client-side defaults are cwd, /bin/sh and the process umask for an unset LOCATION, X-ECHS-SHELL, X-ECHS-UMASK (DESIGN C05 mechanism list)',
+            'tz-chain: a wall-clock time that does not exist or exists twice on a day is classified with the C library\'s reading of the same zone file; occurrences at such times are not compared (which instant they are is read both ways, C07), and a position whose NEXT occurrence falls on a day without the stated time is written but not judged (chain: not written, the chain goes on from the task in hand) (the live stream has moved that instance, the text can only name the moved time, and the series re-read from it keeps the moved time: --opt gapdays=1 judges these too and reports tzchain/remaining/*/*/at-skipped-hour on the unchanged tree); a position at a repeated time is judged on the occurrences after it',
+            'mail-flags: values are 0 (off) and 1, 2, true (non-0 = on); spellings f/false/no are left out (the README says non-0 only); calendar-level X-ECHS-MAIL-* lines are left out (see above)',
             'binaries: DT is the k-th occurrence, so echse merge --unroll DT consumes exactly k; streams in a non-Gregorian output scale are skipped there',
         ],
     }
